@@ -47,6 +47,7 @@ PIPE_INVS = {
     "C05": ["P_C05_partition", "P_C05_aligned", "P_C05_balance"],
     "C06": ["P_C06"],
     "C07": ["P_C07_coverage", "P_C07_start", "P_C07_mono"],
+    "C14": ["P_C14_feasible", "P_C14_optimal", "P_C14_decoded"],
     "C16": ["P_C16_stages", "P_C16_start", "P_C16_transopt", "P_C16_cycles", "P_C16_final", "P_C16_output"],
 }
 
@@ -100,6 +101,8 @@ def pipe_coverage(infos):
                     ends_a = {v["id"]: v["n"][-1] for v in a["veh"]}
                     cov["end_depot_moved"] += any(ends_a.get(v["id"]) != v["n"][-1] for v in f["veh"])
     cov["instance_tags"] = tags
+    cov["decoupled_instances"] = sum(1 for info in infos for c in info["chunks"]
+                                     for e in common.read_ndjson(c) if e["ev"] == "load" and e.get("dec"))
     return cov
 
 
@@ -113,6 +116,7 @@ PIPE_NEEDS = {
     "C01": (["solved_ok"], ["forbid", "zero_shunt", "tie", "multi_type", "slots"]),
     "C03": (["solved_ok"], ["slots"]),
     "C04": (["solved_ok", "overflow_used"], ["slots"]),
+    "C14": (["solved_ok", "decoupled_instances"], ["slots", "coupled", "multi_type"]),
 }
 
 
@@ -193,7 +197,7 @@ class PipeProp:
         return selftest.pipe(prop, tier, seed)
 
 
-for _p in ("C01", "C02", "C03", "C04", "C05", "C07", "C16"):
+for _p in ("C01", "C02", "C03", "C04", "C05", "C07", "C14", "C16"):
     REGISTRY[_p] = PipeProp()
 REGISTRY["C06"] = PipeProp(profiles=("release", "checked"))
 
